@@ -32,7 +32,9 @@ def gen_config(rng):
         for key in rng.sample(KEYS, rng.randint(1, 4)):
             r = {"key": key, "deny": None, "allow": None}
             m = rng.random()
-            if m < 0.45:
+            if m < 0.15:
+                pass                      # an empty rule still governs (shields) its directory
+            elif m < 0.5:
                 r["allow"] = pats()
             elif m < 0.7:
                 r["deny"] = pats(2)
